@@ -828,6 +828,7 @@ func (m *Model) evalCall(pl *Pipeline, c *Call, inputs map[string]interface{}, i
 		case []interface{}:
 			if mode == KTMap || (n >= 0 && n != len(a)) {
 				m.problem("%s: inconsistent split sources", path)
+				srcUnknown = true
 			}
 			mode = KArray
 			n = len(a)
@@ -839,6 +840,7 @@ func (m *Model) evalCall(pl *Pipeline, c *Call, inputs map[string]interface{}, i
 			sort.Strings(ks)
 			if mode == KArray || (keys != nil && strings.Join(keys, "\x00") != strings.Join(ks, "\x00")) {
 				m.problem("%s: inconsistent split sources", path)
+				srcUnknown = true
 			}
 			mode = KTMap
 			keys = ks
